@@ -9,7 +9,7 @@ from .actions import ActionAnalyzer, CHOICE, REPETITIONS, Reads, info_points
 from .core import AnalysisError, Report
 from .emit import Folder
 from .grammar import GNode, Grammar, Scope, first_terms, is_constant, VARIABLE_TERMINALS
-from .prog import (Program, bind_call, enclosing, func_params, guards_of, parent, required_params, unparse,
+from .prog import (Program, bind_call, enclosing, func_params, guards_of, parent, required_params, single_def, unparse,
                    walk_no_nested)
 from .rules_grammar import ctx_label, gloc, parse_root
 
@@ -596,7 +596,10 @@ def _to_cpp_shape(ctx, ci, fn, subject: str = "self"):
             t = _fold_detached(folder, n.value)
             if t is not None and t.slots():
                 first = t.parts[0]
-                lead_ok = not isinstance(first, str) and isinstance(first.expr, ast.IfExp)
+                fe = first.expr if not isinstance(first, str) else None
+                if isinstance(fe, ast.Name):
+                    fe = single_def(fn, fe.id) or fe        # `const = "const " if self.is_const else ""` held in a local
+                lead_ok = not isinstance(first, str) and isinstance(fe, ast.IfExp)
                 if not lead_ok:
                     const_piece = {k + ":not-leading": v for k, v in const_piece.items()}
     return branches, const_piece
